@@ -79,7 +79,7 @@ CLAIMED = {
             "(all four quaternion-from-matrix branches, both frame() branches). Decides 'right formula on every branch'; rounding-error magnitude is not decided.",
             "DESIGN.md 3/C06",
             "REAL mode (exact reals; rcpss/rsqrtss idealised as exact; sin/cos constrained by s^2+c^2=1 and stated double-angle links); "
-            "preconditions det != 0 / unit vectors / unit quaternions; slerp and orthogonal() convergence not covered; float (and padded vec3fa in thorough) instantiations",
+            "preconditions det != 0 / unit vectors / unit quaternions; slerp only towards the identity rotation (general target: no verdict), orthogonal() convergence not covered; float (and padded vec3fa in thorough) instantiations",
             "symbolic execution of LLVM IR into SMT (z3 nonlinear real arithmetic), compositional cuts, native replay"),
     "C05": ("other",
             "SMT verdicts (z3) over all boxes, points, rays and affine maps: range.h/box.h/AffineSpace.h lowered to LLVM IR and executed symbolically; "
